@@ -53,6 +53,7 @@ func checkC06(r *Report, p *Program) {
 	r02_1(r, p, computeChildRoles(p))
 	oneWritePerChild(r, p, "R06.6")
 	deleteTable(r, p, "R06.7")
+	strategyMapTable(r, p, "R06.8")
 }
 
 // R06.1 method decision table.
@@ -759,4 +760,54 @@ func deleteTable(r *Report, p *Program, rule string) {
 		}
 	}
 	r.Check(rule, FK(f), p.Pos(f.Pos()), ok, "Delete ⇔ alive ∧ not desired", why)
+}
+
+// strategyMapTable: both makeUpdateStrategyMap siblings record a child type's strategy ⇔ one is configured and
+// its method is not OnDelete; an unknown resource is an error (never a silent skip); the value stored is the rule's own strategy.
+func strategyMapTable(r *Report, p *Program, rule string) {
+	r.Rule(rule, "makeUpdateStrategyMap (composite, decorator), per child rule: stored ⇔ UpdateStrategy != nil ∧ Method != OnDelete ∧ the resource is known; unknown resource ⇒ error; the stored value is that rule's UpdateStrategy")
+	r.Floor(rule, 2)
+	for _, key := range []string{"controller/composite.makeUpdateStrategyMap", "controller/decorator.makeUpdateStrategyMap"} {
+		f := fn(r, p, rule, key)
+		if f == nil {
+			continue
+		}
+		loops := engine.RangeLoops(f)
+		if len(loops) != 1 {
+			r.Check(rule, FK(f), p.Pos(f.Pos()), false, "", "expected one loop over the child rules")
+			continue
+		}
+		l := loops[0]
+		paths, err := engine.EnumPaths(f, engine.EnumOpts{Start: l.Body, Leave: func(b *ssa.BasicBlock) bool { return b == l.Header || b == l.Exit },
+			Effect: func(in ssa.Instruction) bool { _, isMU := in.(*ssa.MapUpdate); return isMU }})
+		ok, why := err == nil, ""
+		if err != nil {
+			why = err.Error()
+		}
+		for _, pa := range paths {
+			has := -val(pa, -1, func(a string) bool { return strings.HasSuffix(a, ".UpdateStrategy == nil)") })
+			onDelete := val(pa, -1, func(a string) bool { return strings.HasSuffix(a, `.UpdateStrategy.Method == "OnDelete")`) })
+			known := -val(pa, -1, func(a string) bool {
+				return strings.HasPrefix(a, "(call(dynamic/discovery.ResourceMap.Get)(p0, ") && strings.HasSuffix(a, " == nil)")
+			})
+			rt, isR := pa.End.(*ssa.Return)
+			stored := len(pa.Effects)
+			for _, e := range pa.Effects {
+				if v := E(e.(*ssa.MapUpdate).Value); !strings.HasSuffix(v, ".UpdateStrategy") {
+					ok, why = false, "the value stored is "+v+", not the rule's UpdateStrategy"
+				}
+			}
+			switch {
+			case isR && !(has == 1 && known == -1 && isErrReturn(rt)):
+				ok, why = false, "the scan of the child rules ends early other than with an error for an unknown resource of an updatable rule; path: "+pa.Cond()
+			case !isR && has == 1 && onDelete == -1 && known == 1 && stored != 1:
+				ok, why = false, "an updatable child rule's strategy is not recorded: the type is treated as OnDelete"
+			case !isR && stored > 0 && !(has == 1 && known == 1): // (recording an OnDelete strategy as well changes nothing: GetMethod answers OnDelete either way)
+				ok, why = false, sf("a strategy is recorded for configured=%d OnDelete=%d known=%d", has, onDelete, known)
+			case !isR && stored == 0 && !(has == -1 || onDelete == 1):
+				ok, why = false, "a child rule is passed over without being found unconfigured or OnDelete; path: "+pa.Cond()
+			}
+		}
+		r.Check(rule, FK(f), p.Pos(f.Pos()), ok, "stored ⇔ configured ∧ ¬OnDelete ∧ known", why)
+	}
 }
